@@ -369,6 +369,7 @@ func (ex *Exec) Run() (err error) {
 	// reachability: a block with real work (a call or a store) that no explored path enters means
 	// the executor - or a contract it applied - has assumed that code away; its obligations would
 	// be missing without anyone noticing. Blocks that only panic are expected to be unreachable.
+	var unreached []string
 	for _, b := range fn.Blocks {
 		if ex.visited[b] || len(b.Preds) == 0 && b != fn.Blocks[0] {
 			continue
@@ -388,10 +389,11 @@ func (ex *Exec) Run() (err error) {
 		if _, isPanic := b.Instrs[len(b.Instrs)-1].(*ssa.Panic); isPanic || !work {
 			continue
 		}
-		ex.obs = append(ex.obs, staticOb(fmt.Sprintf("%s/%s/reach@%s", ex.layer, ex.fnName, ex.anchor(at)), ex.fnName,
-			"every block with a call or a store is entered by some explored path", false,
-			"no explored path enters the block at "+ex.prog.Pos(at)+": the code there is not covered by any obligation"))
+		unreached = append(unreached, ex.anchor(at)+" ("+ex.prog.Pos(at)+")")
 	}
+	ex.obs = append(ex.obs, staticOb(fmt.Sprintf("%s/%s/reach@all_work_blocks", ex.layer, ex.fnName), ex.fnName,
+		"every block with a call or a store is entered by some explored path", len(unreached) == 0,
+		"no explored path enters: "+strings.Join(unreached, "; ")+" - the code there is not covered by any obligation"))
 	return nil
 }
 
